@@ -18,8 +18,11 @@ META = {
     "started node gets exactly the jobs of the unique solution of the dataflow equations (jobs_are_reference, an invariant of "
     "the tables), hence every successful submission returns the reference outputs — asynchronous loop with any fault-free "
     "schedule and any max_concurrent (C17_async), synchronous debug loop (C17_sync) — and any two successful runs agree "
-    "(C17_determinism).  Tied to the code by running generated workflows (splits, inherited splits, duplicate checksums, "
-    "diamonds) under the debug worker, the controlled worker with several seeded schedules and k in {1, 2, n}, and the "
+    "(C17_determinism).  Job lists may be empty (a split over an empty list, literal or produced upstream at run time): the "
+    "theorems rest on 'every node is done', and C17_empty_split_regression / C17_while_tasks_witness show by computation that both "
+    "loops go on after a zero-job node while a loop that only looks at runnable tasks stops early with different outputs.  Tied "
+    "to the code by running generated workflows (splits, inherited splits, duplicate checksums, diamonds, EMPTY splits given "
+    "literally or emitted by an upstream node, feeding further nodes alone and next to other work) under the debug worker, the controlled worker with several seeded schedules and k in {1, 2, n}, and the "
     "unmodified cf worker with 1-8 processes, comparing all outputs with each other and with a scheduler-free evaluation of the dataflow.",
     "note": "Trusted: Lean kernel; hand-written model (Sched/Model.lean); purity of bodies and content-addressing of jobs are "
     "hypotheses of the theorem (C06-C08 are about the hash); pickling to worker processes is C29's subject.",
@@ -30,7 +33,11 @@ META = {
 }
 
 _NS = "PydraModel.Sched."
-OBLIGATIONS = [_NS + n for n in ("jobs_are_reference", "C17_async", "C17_sync", "C17_determinism", "refDyn_ok")]
+OBLIGATIONS = [
+    _NS + n
+    for n in ("jobs_are_reference", "C17_async", "C17_sync", "C17_determinism", "refDyn_ok", "refEmpty_ok",
+              "C17_empty_split_regression", "C17_while_tasks_witness")
+]
 LEAN_TARGETS = ["PydraModel.Props.C17"]
 MODEL_TARGETS = ["PydraModel.Sched.Model", "PydraModel.DriverUtil"]
 
@@ -63,13 +70,22 @@ def norm(v):
 
 def out_tags(outputs, case):
     """per node: the tags of the jobs whose values make up the node's output"""
-    return {nd["name"]: (None if not outputs or outputs.get(nd["name"]) is None else _tags(outputs[nd["name"]])) for nd in case["nodes"]}
+    res = {}
+    for nd in case["nodes"]:
+        v = outputs.get(nd["name"]) if outputs else None
+        if v is None:
+            res[nd["name"]] = None
+        elif nd.get("emit") is not None:  # a lister's single job returns a plain list of numbers
+            res[nd["name"]] = [nd["name"]] if v == list(range(nd["emit"])) else [repr(v)]
+        else:
+            res[nd["name"]] = _tags(v)
+    return res
 
 
 def configs(rng, case, n_sched, cf_procs):
     """the runs of one workflow: debug worker, controlled schedules, unmodified cf worker"""
     nj = sched.njobs(case)
-    runs = [dict(case, worker="debug", k=None)]
+    runs = [dict(case, worker="debug", k=None), dict(case, worker="debug", k=rng.choice([1, 2]))]
     for i in range(n_sched):
         k = [1, 2, None][i % 3] if i < 3 else rng.choice([1, 2, 3, None])
         runs.append(dict(case, k=k, fail=[], policy={"seed": rng.randrange(10**6), "style": rng.choice(["random", "random", "lazy", "greedy"])}))
@@ -133,7 +149,7 @@ CORPUS = sched.load_corpus("C17")
 
 def correspondence(ctx):
     core.assert_repo_loaded()
-    n_sched = ctx.pick(3, 6)
+    n_sched = ctx.pick(2, 6)
     cf = ctx.pick([2], [1, 2, 8])
     graphs = [dict(c) for c in CORPUS] + [sched.gen_graph(ctx.rng) for _ in range(ctx.pick(2, 14))]
     judge_workflows(ctx, graphs, n_sched, cf)
